@@ -201,6 +201,25 @@ PROPS = {
         "Block1. states = distinct handler snapshots, transitions = exchanges.",
         ["oc"], ["oc", "rel"],
     ),
+    "C10": P(
+        "exploration",
+        "Direct measurement: complete downloads and uploads through the real handler for budgets (every value overhead+28..+92, "
+        "+-2 around overhead+12+2^k, 1152, 1280) x overhead shapes (token, path, extra options / application options) x client SZX "
+        "(none, 0..7) x bodies relative to the room left; every handler-produced reply is encoded and compared with the budget, "
+        "the chosen SZX with 0..6 / the client's size / the exact-size rule, and the client's next upload block is encoded and "
+        "measured. distinct+non-trivial = distinct (outcome x client SZX x body shape x overhead shape x log2(room)) buckets.",
+        ["oc"], ["oc", "rel"],
+    ),
+    "C11": P(
+        "model_checking",
+        "Depth 1: the full product of 7680 hostile request templates x 122 budgets x 4 application replies; depth 2: every ordered "
+        "pair of a covering template set x 67 budgets x 2 replies; depth 3 (5): BFS over 14 templates colliding on one cache key x 2 "
+        "replies at budgets {21,32,64,1152}, dedup on the hook snapshot. Every exchange runs the real intercept_request / "
+        "application / intercept_response / apply_from_error / encode path under panic capture; oracle: no panic, errors "
+        "renderable as 4.xx/5.xx, own-buffer growth <= 16 KiB + payload, rejected blocks and other keys leave buffers unchanged. "
+        "states = distinct handler snapshots, transitions = exchanges.",
+        ["oc", "rel"], ["oc", "rel"],
+    ),
 }
 
 
